@@ -50,9 +50,9 @@ def cia_bytes(encrypted=True):
     return ciabuild.build_cia(rng.rbytes(0xA00), ticket, tmd, [(0, stored)], [0], rng=rng)
 
 
-def cci_bytes():
+def cci_bytes(encrypted=False):
     rng = Rng('c16-cci')
-    img = ncch_bytes(False)
+    img = ncch_bytes(encrypted)
     n = len(img) // 0x200
     image = bytearray((0x20 + n) * 0x200)
     image[0x20 * 0x200:] = img
